@@ -26,7 +26,7 @@ import (
 
 func VerifC03_PassStaysWithinLimits() {
 	w := pwNew(&opopts.Options{})
-	offers := []pwOffer{{"zone-1", v1.CapacityTypeOnDemand, 1, true}}
+	offers := []pwOffer{{zone: "zone-1", ct: v1.CapacityTypeOnDemand, price: 1, available: true}}
 	w.addType("it-m", resource.MustParse("4"), offers)
 	w.addType("it-l", resource.MustParse("16"), offers)
 	pool := w.addPool("pool-1", 10)
